@@ -3,6 +3,7 @@
    Print Assumptions and non-vacuity examples live here. *)
 From CV Require Import Model.Base Model.TagExpr Model.RetryOpts Model.RetryOptsSpec
   Proofs.BaseP Proofs.RetryOptsP.
+From CV Require Model.RetryOptsSpec2 Proofs.RetryOptsP2.
 
 (* The transcription of `parse_from_tags` equals the specification for every
    input outside known-finding class K18a, for every duration parser. *)
@@ -117,3 +118,47 @@ Print Assumptions C18_filter_is_boolean.
 Print Assumptions C18_merge.
 Print Assumptions C18_prefix_always_retry.
 Print Assumptions C18_prefix_refuted.
+
+
+(* ---------- THE KNOWN-FINDING CLASS, NARROWED (review finding L2) ----------
+   K18a as stated above ("SOME tag at SOME level starts with retry but is none of the four forms") over-excludes: the code
+   only ever consults ONE tag — the first tag with prefix "retry" of the scenario tags, else of the rule tags, else of the
+   feature tags (`RetryOptsSpec2.consulted`) — and agrees with the specification whenever THAT tag is well-formed, whatever
+   malformed tags stand elsewhere. `k18a_narrow` = "the consulted tag exists and is malformed". The theorem for the narrow
+   class subsumes `C18_resolve`; Check/C18Check.v now records only the narrow class as known. *)
+Theorem C18_resolve_outside_the_narrow_class :
+  forall (parse_dur : str -> option N) ftags rtags stags c,
+    RetryOptsSpec2.k18a_narrow parse_dur ftags rtags stags = false ->
+    parse_from_tags parse_dur ftags rtags stags c = spec_resolve parse_dur ftags rtags stags c.
+Proof. exact RetryOptsP2.resolve_correct_narrow. Qed.
+Print Assumptions C18_resolve_outside_the_narrow_class.
+
+Theorem C18_model_satisfies_monitor_outside_the_narrow_class :
+  forall (parse_dur : str -> option N) ftags rtags stags c,
+    RetryOptsSpec2.k18a_narrow parse_dur ftags rtags stags = false ->
+    c18_ok parse_dur ftags rtags stags c (parse_from_tags parse_dur ftags rtags stags c) = true.
+Proof. exact RetryOptsP2.model_satisfies_monitor_narrow. Qed.
+Print Assumptions C18_model_satisfies_monitor_outside_the_narrow_class.
+
+Theorem C18_narrow_class_is_narrower :
+  forall (parse_dur : str -> option N) ftags rtags stags,
+    RetryOptsSpec2.k18a_narrow parse_dur ftags rtags stags = true -> k18a parse_dur ftags rtags stags = true.
+Proof. exact RetryOptsP2.k18a_narrow_implies_k18a. Qed.
+Print Assumptions C18_narrow_class_is_narrower.
+
+(* strictly narrower (the reviewer's witness); still needed (code and specification differ inside it); and "may differ",
+   not "does differ" (inputs inside it on which they agree for every CLI) *)
+Theorem C18_narrow_class_witnesses :
+  (exists parse_dur ftags rtags stags,
+     k18a parse_dur ftags rtags stags = true /\ RetryOptsSpec2.k18a_narrow parse_dur ftags rtags stags = false) /\
+  (exists parse_dur ftags rtags stags c,
+     RetryOptsSpec2.k18a_narrow parse_dur ftags rtags stags = true /\
+     parse_from_tags parse_dur ftags rtags stags c <> spec_resolve parse_dur ftags rtags stags c) /\
+  (exists parse_dur ftags rtags stags,
+     RetryOptsSpec2.k18a_narrow parse_dur ftags rtags stags = true /\
+     forall c, parse_from_tags parse_dur ftags rtags stags c = spec_resolve parse_dur ftags rtags stags c).
+Proof.
+  exact (conj RetryOptsP2.k18a_narrow_strictly_narrower
+           (conj RetryOptsP2.narrow_class_refuted RetryOptsP2.narrow_class_may_agree)).
+Qed.
+Print Assumptions C18_narrow_class_witnesses.
